@@ -27,18 +27,18 @@ np.seterr(all="ignore")
 MODULE = "ColaVerif.Properties.C07"
 DRIVER = "DriverC07.lean"
 
-# defects found while building this check, not yet decided by the maintainer of /verif (see the report)
-PROVISIONAL_KNOWN = {
-    "lanczos-nonpositive-leaf": "slogdet(A, Lanczos()) returns (nan, nan) when a base-case operator is self-adjoint but not "
-                                "positive definite: log(A, Lanczos) takes the real logarithm of a negative eigenvalue",
-}
+# defects found by this check and not yet decided (none at present)
+PROVISIONAL_KNOWN = {}   # all findings of this check are decided: fixed in /repo or recorded in /verif/known_findings.json
 
 TOL = {  # relative tolerance on sign * exp(logabs) by (path, precision)
-    ("direct", "d"): 1e-9, ("direct", "s"): 2e-4,
+    ("direct", "d"): 1e-9, ("direct", "s"): 5e-4,
     ("krylov", "d"): 1e-6, ("krylov", "s"): 5e-3,
 }
 UNIT_TOL = {"d": 1e-12, "s": 1e-5}
+MAX_VIOLATION_LINES = 6   # further failing inputs of the same run are counted, not shrunk / reported one by one
 
+# outcomes of the Krylov kernel outside its contract (DriverC07.lean) -> clause recorded in /verif/known_findings.json
+KERNEL_OUTCOMES = {"lanczos-batch-breakdown": "lanczos-batch-breakdown", "krylov-zero-probe": "krylov-blockdiag-zero-probe"}
 LAS = [None, "auto", "lu", "chol", "lanczos", "arnoldi"]
 TAS = [None, "auto", "exact"]
 
@@ -118,8 +118,11 @@ class DetGen:
         self.undeclared_p = undeclared_p
         self.G = gen.Gen(rng, max_extent=3, vmax=2, ann=True, arr_index=False, ann_p=0.1)
 
-    def dt(self):
-        return self.rng.choice(self.dtypes)
+    def dt(self, n=1):
+        """single precision only for small leaves (its rounding error times the conditioning of a large random leaf would
+        need a tolerance that detects nothing)"""
+        dts = self.dtypes if n <= 5 else [d for d in self.dtypes if prec(d) == "d"] or ["f64"]
+        return self.rng.choice(dts)
 
     # ---- scalars
     def mag(self):
@@ -163,17 +166,35 @@ class DetGen:
 
     def general_mat(self, dt, n):
         """P * L * D * U with unit triangular L, U: determinant = sign(P) * prod(D), all entries small dyadics"""
-        L = self.tri_mat(dt, n, True, unit_diag=True)
-        U = self.tri_mat(dt, n, False)
-        M = mat_mul(L, U)
-        rows = list(range(n))
-        self.rng.shuffle(rows)
-        return [M[r] for r in rows]
+        def make():
+            L = self.tri_mat(dt, n, True, unit_diag=True)
+            U = self.tri_mat(dt, n, False)
+            M = mat_mul(L, U)
+            rows = list(range(n))
+            self.rng.shuffle(rows)
+            return [M[r] for r in rows]
+        return self.well_conditioned(make)
+
+    @staticmethod
+    def cond_of(M):
+        A = np.array([[complex(float(z[0]), float(z[1])) for z in row] for row in M])
+        return np.linalg.cond(A)
+
+    def well_conditioned(self, make, limit=1e4):
+        """the generator controls the conditioning of its dense leaves (tolerance comparison: a false alarm is worse than a miss)"""
+        M = make()
+        for _ in range(12):
+            if self.cond_of(M) <= limit:
+                break
+            M = make()
+        return M
 
     def pd_mat(self, dt, n):
-        L = self.tri_mat(dt, n, True, posdiag=True)
-        LH = [[(L[j][i][0], -L[j][i][1]) for j in range(n)] for i in range(n)]
-        return mat_mul(L, LH)
+        def make():
+            L = self.tri_mat(dt, n, True, posdiag=True)
+            LH = [[(L[j][i][0], -L[j][i][1]) for j in range(n)] for i in range(n)]
+            return mat_mul(L, LH)
+        return self.well_conditioned(make)
 
     def herm_indef_mat(self, dt, n):
         L = self.tri_mat(dt, n, True, unit_diag=True)
@@ -187,7 +208,7 @@ class DetGen:
 
     # ---- leaves with a structural rule
     def leaf_struct(self, n):
-        dt = self.dt()
+        dt = self.dt()  # structural rules: no conditioning issue
         k = self.rng.choice(["diag", "diag", "scalar", "scalar", "eye", "tri", "tri", "perm", "perm"])
         if k == "diag":
             return ["diag", dt, [zj(*self.nz(dt)) for _ in range(n)]]
@@ -204,7 +225,7 @@ class DetGen:
 
     # ---- leaves that reach the base cases
     def leaf_pd(self, n):
-        dt = self.dt()
+        dt = self.dt(n)
         r = self.rng.random()
         if r < self.herm_indef_p:
             return ["ann", "SelfAdjoint", ["dense", dt, n, n, mat_json(self.herm_indef_mat(dt, n))]]
@@ -215,16 +236,16 @@ class DetGen:
         if r < 0.55:
             return ["ann", "PSD", core]
         if r < 0.7:
-            # a Sum (no structural rule) of a PD matrix and a positive multiple of the identity
-            return ["ann", "PSD", ["sum", core, ["scalar", dt, qj(self.rng.choice([1, 2, Fraction(1, 2)])), n]]]
+            # a Sum (no structural rule): 4 L L^H = (2L)(2L)^H keeps the Cholesky factor rational
+            return ["ann", "PSD", ["sum", core, core, core, core]]
         if r < 0.8:
             return ["ann", "PSD", ["generic", core]]
         if r < 0.9:
-            return ["ann", "PSD", [self.rng.choice(["T", "H"]), ["sum", core, core]]]
+            return ["ann", "PSD", [self.rng.choice(["T", "H"]), ["sum", core, core, core, core]]]
         return ["ann", self.rng.choice(["PSD", "SelfAdjoint"]), core]
 
     def leaf_general(self, n):
-        dt = self.dt()
+        dt = self.dt(n)
         r = self.rng.random()
         if self.exotic and r < 0.45:
             e = self.exotic_leaf(n)
@@ -290,7 +311,7 @@ class DetGen:
     def pd_tree(self, n, depth):
         """Hermitian positive definite structural tree (Kronecker / BlockDiag of PD members, positive Diagonal / ScalarMul)"""
         rng = self.rng
-        dt = self.dt()
+        dt = self.dt(n)
         if depth <= 0 or rng.random() < 0.3:
             k = rng.choice(["diag", "scalar", "eye", "dense"])
             if k == "diag":
@@ -332,6 +353,38 @@ class DetGen:
 
     def size(self):
         return self.rng.choice([1, 2, 2, 3, 3, 4, 4, 5, 6, 6, 8, 9, 12][: 9 + (4 if self.max_n >= 12 else 2 if self.max_n >= 8 else 0)])
+
+
+def base_operators(A):
+    """the operators on which slogdet(A, ...) reaches a base case (same walk as the dispatcher)"""
+    from cola.ops import BlockDiag, Diagonal, Identity, Kronecker, Permutation, Product, ScalarMul, Triangular
+    if isinstance(A, Product):
+        if all(M.shape[0] == M.shape[1] for M in A.Ms):
+            return [b for M in A.Ms for b in base_operators(M)]
+        return [A]
+    if isinstance(A, (Kronecker, BlockDiag)):
+        return [b for M in A.Ms for b in base_operators(M)]
+    if isinstance(A, (Identity, ScalarMul, Diagonal, Triangular, Permutation)):
+        return []
+    return [A]
+
+
+def eig_well_conditioned(e, limit=1e3):
+    """every base-case operator of the tree is diagonalisable with an eigenvector matrix of condition number < limit
+    (Arnoldi + eig evaluates log through the eigendecomposition of the Hessenberg matrices; a defective or nearly
+    defective leaf is outside 'well-conditioned inputs')"""
+    try:
+        A = build.Builder().build(e)
+        for Bop in base_operators(A):
+            M = np.asarray(Bop.to_dense()).astype(np.complex128)
+            w, V = np.linalg.eig(M)
+            if not np.all(np.isfinite(V)) or np.linalg.cond(V) > limit:
+                return False
+            if np.min(np.abs(w)) < 1e-3 * np.max(np.abs(w)):
+                return False
+        return True
+    except Exception:  # noqa: BLE001
+        return False
 
 
 # ------------------------------------------------------------------ real side
@@ -440,17 +493,24 @@ def classify(case, ans, real):
     tol = TOL[(path, pr)]
     is_real_op = not any(is_cplx(d) for d in dts)
     # ---- errors of the real code
+    if "err" in code and code["err"] in KERNEL_OUTCOMES:
+        # outcomes of the Krylov kernel outside its contract: nan (modelled) resp. undetermined
+        clause = KERNEL_OUTCOMES[code["err"]]
+        v = None if "err" in real else real_value(real)
+        if "err" in real and real["err"] == "assert" and ans.get("code_lenient", {}).get("err") == "assert":
+            return "domain", "assert"   # a nan of an earlier member does not stop Python; a later member's assertion fires
+        if "err" in real and real["err"] != "linalg-error":
+            return "violation", f"raised {real['err']}: {real.get('msg', '')}"
+        if v is not None and close(v, z_spec, tol):
+            return "ok-spec-only", ""
+        return "known", [clause]
     if "err" in real:
-        if "err" in code and code["err"] == real["err"]:
+        if "err" in code and (code["err"] == real["err"] or (code["err"] == "inexact-sqrt" and real["err"] == "assert")):
+            # (an irrational Cholesky factor of an earlier member hides a later member's assertion from the exact model)
             return "domain", code["err"]
         return "violation", f"raised {real['err']}: {real.get('msg', '')}"
     v = real_value(real)
     if "err" in code:
-        if code["err"] == "nan":
-            if v is None:
-                return "known", ["lanczos-nonpositive-leaf"]
-            # e.g. the leaf sits under a Transpose whose logarithm is taken entrywise in complex arithmetic
-            return ("ok-spec-only", "") if close(v, z_spec, tol) else ("violation", "Lanczos path: wrong finite value")
         if code["err"] == "inexact-sqrt":
             if close(v, z_spec, tol):
                 return "ok-spec-only", ""
@@ -514,12 +574,19 @@ def run(ctx):
     maxerr = collections.defaultdict(float)
 
     def evaluate(cases):
+        # the model's answer depends on (tree, log_alg) only: `trace_alg` is handed to the Krylov kernel, whose exact
+        # stand-in ignores it, and an omitted log_alg is Auto()
+        uniq, keyof = {}, []
         for i, c in enumerate(cases):
             c["id"] = i
-        ans = oracle.run_driver([{"id": c["id"], "op": c["op"], "la": c.get("la"), "ta": c.get("ta")} for c in cases], driver=DRIVER)
+            k = common.canon([c["op"], c.get("la") or "auto"])
+            if k not in uniq:
+                uniq[k] = {"id": len(uniq), "op": c["op"], "la": c.get("la") or "auto", "ta": c.get("ta")}
+            keyof.append(uniq[k]["id"])
+        ans = oracle.run_driver(list(uniq.values()), driver=DRIVER)
         out = []
         for c in cases:
-            a = ans.get(c["id"], {"error": "no answer"})
+            a = ans.get(keyof[c["id"]], {"error": "no answer"})
             real = run_real(c)
             st, det = classify(c, a, real)
             out.append((c, a, real, st, det))
@@ -579,6 +646,8 @@ def run(ctx):
                 else:
                     common.violation(ctx, {"case": strip(c), "model": a.get("code"), "spec": a.get("spec"), "real": real, "clause": cl,
                                            "why": "real = code model differs from the determinant; clause not recorded"})
+        elif st == "violation" and len(ctx.violations) >= MAX_VIOLATION_LINES:
+            stats["violations-not-listed"] += 1
         elif st == "violation":
             try:
                 small = shrink(c)
@@ -590,6 +659,8 @@ def run(ctx):
             common.violation(ctx, {"case": strip(c2), "expected_det": a2.get("spec"), "model": a2.get("code"), "real": r2,
                                    "detail": d2, "original_case": strip(c),
                                    "call": "cola.linalg.slogdet(build(case.op), log_alg=case.la, trace_alg=case.ta)"})
+        elif st == "stale-model" and len(ctx.violations) >= MAX_VIOLATION_LINES:
+            stats["violations-not-listed"] += 1
         elif st == "stale-model":
             common.violation(ctx, {"case": strip(c), "model": a.get("code"), "spec": a.get("spec"), "real": real, "detail": det,
                                    "broken": "correspondence between logdet.py and the Lean rule model (Model/LogDet.lean)"}, no_input=True)
@@ -647,7 +718,9 @@ def run(ctx):
 def build_cases(ctx, rng):
     big = ctx.thorough
     cases = []
-    n_direct, n_chol, n_lan, n_arn, n_pre = (60, 35, 30, 30, 12) if not big else (1500, 700, 500, 500, 100)
+    n_direct, n_chol, n_lan, n_arn, n_pre = (60, 35, 30, 30, 12) if not big else (1000, 500, 400, 400, 60)
+    scale = float(os.environ.get("C07_SCALE", "1"))   # testing aid only
+    n_direct, n_chol, n_lan, n_arn, n_pre = [max(1, int(x * scale)) for x in (n_direct, n_chol, n_lan, n_arn, n_pre)]
     max_n = 8 if not big else 12
     # -- direct stream: any tree, LA in {omitted, auto, lu} x all TA
     G = DetGen(rng, basepd=False, max_n=max_n)
@@ -661,7 +734,7 @@ def build_cases(ctx, rng):
         t = G.node(G.size(), rng.choice([0, 1, 1, 2, 2]))
         for la, ta in itertools.product(["chol", "auto", None], TAS):
             cases.append({"op": t, "la": la, "ta": ta, "stream": "cholesky"})
-    # -- Lanczos stream: base leaves self-adjoint; a fraction not positive definite (recorded defect), a few undeclared (assertion)
+    # -- Lanczos stream: base leaves self-adjoint; a fraction indefinite (sign -1 through the complex logarithm), a few undeclared (assertion)
     G = DetGen(rng, basepd=True, max_n=min(max_n, 8), herm_indef_p=0.08, undeclared_p=0.03, dtypes=["f64", "f64", "c128", "c128", "f32"])
     for _ in range(n_lan):
         t = G.node(G.size(), rng.choice([0, 1, 1, 2]))
@@ -670,7 +743,12 @@ def build_cases(ctx, rng):
     # -- Arnoldi stream: general well-conditioned trees
     G = DetGen(rng, basepd=False, max_n=min(max_n, 8), dtypes=["f64", "f64", "c128", "c128", "f32"])
     for _ in range(n_arn):
-        t = G.node(G.size(), rng.choice([0, 1, 1, 2]))
+        for _try in range(40):
+            t = G.node(G.size(), rng.choice([0, 1, 1, 2]))
+            if eig_well_conditioned(t):
+                break
+        else:
+            t = ["diag", "f64", [2, -1]]
         for ta in TAS:
             cases.append({"op": t, "la": "arnoldi", "ta": ta, "stream": "arnoldi"})
     # -- precondition tie: Triangular operators that are not triangular (the Triangular rule fires: real = code != det)
